@@ -214,6 +214,12 @@ def build(con):
         return D["concat"](chain(2, src), chain(1, b, base=2)), {"src": src, "b": b}, lambda k: k
     if con == "take":
         return D["take"](2, chain(3, src)), {"src": src}, lambda k: k
+    if con == "map2":
+
+        def first_of(x, y):
+            f.n += 1
+            return x
+        return D["map"](first_of, chain(2, src), chain(3, b)), {"src": src, "b": b, "f": f}, lambda k: k
     if con == "drop":
         return D["drop"](1, chain(4, src)), {"src": src}, lambda k: k + 1
     if con == "iterate":
@@ -388,7 +394,7 @@ def demand_part(chk, pool):
         by_mode[b["m"]][tuple(b["h"])] = None
     for m in by_mode:
         by_mode[m] = sorted(by_mode[m])        # histories stay encoded (tuples of ints) until they are executed
-    cons = ["lazy", "map", "filter", "concat", "take", "drop", "iterate", "iterate-bool", "iterate-nil",
+    cons = ["lazy", "map", "map2", "filter", "concat", "take", "drop", "iterate", "iterate-bool", "iterate-nil",
             "pyseq", "pyseq1", "pyiter"]
     jobs = []
     for con in cons:
